@@ -3,9 +3,11 @@ C19 — the on-disk package cache as a protocol over a tiny file system.
 
 Cache directory = map `Name ↦ file (content id) complete? | link target`.  A *final* (advertised)
 name `adv k` is the name under which content `k` is looked up: `<sha1>.ctl.tar.gz`,
-`<sha256>.dat.tar.gz`, `<sha256>.dat.tar`, `APKINDEX/<base32 etag>.tar.gz` (the name is computed from
-the hash / the ETag of the content, so "the content identified by the name" is `k` itself; that an
-ETag is never served with two different bodies is the server assumption).  A *temp* name `tmp n` is
+`<sha256>.dat.tar.gz`, `<sha256>.dat.tar`, `APKINDEX/<base32 etag>.tar.gz`, and for a signed apk
+`<sha1 of the control section>.sig.tar.gz` (the name is computed from the hash / the ETag of the content —
+for the signature section from the hash of the control section it accompanies — so "the content
+identified by the name" is `k` itself; that an ETag is never served with two different bodies, and a
+control section never with two different signatures, is the server assumption).  A *temp* name `tmp n` is
 `APKINDEX/<n>.tmp` or a file inside a fresh `expand-apk<n>/` directory.
 
 Atomic steps, as the Go code performs them (pkg/paths/paths.go AdvertiseCachedFile,
@@ -393,15 +395,31 @@ def pkgBuilder (sg : Option (Name × Cid)) (t1 t2 t3 t4 : Name) (k1 k2 k3 : Cid)
 def pkgBuilderOld (t1 t2 t3 : Name) (k1 k2 k3 : Cid) (n : Nat) : Prog :=
   pkgBuilderWith (pkgDataOld k2 k3 n) none t1 t2 t3 k1 k2 k3 n
 
-/-- the builder with the regression "signature advertised last" -/
-def pkgBuilderSigLast (sg : Option (Name × Cid)) (t1 t2 t3 t4 : Name) (k1 k2 k3 : Cid) (n : Nat) : Prog :=
-  let miss := pkgExpand sg t1 t2 t3 k1 k2 k3 n (cacheTailSigLast (pkgData t4 k2 k3 n) sg t1 t2 t3 k1 k2 k3)
+/-- the regression "signature advertised after the data section" (control, data, signature, tar) -/
+def cacheTailDatSig (pd : Prog → Prog) (sg : Option (Name × Cid)) (t1 t2 t3 : Name) (k1 k2 k3 : Cid) : Prog :=
+  advertise t1 k1 <| .op (.mark 6) <|
+  advertise t2 k2 <| .op (.mark 7) <|
+  advSig sg <|
+  advertise t3 k3 <| .op (.mark 8) <|
+  pd (pkgUse k1)
+
+/-- the builder of the tree with another `cachePackage` (`tail`) -/
+def pkgBuilderVar (tail : Prog) (sg : Option (Name × Cid)) (t1 t2 t3 t4 : Name) (k1 k2 k3 : Cid) (n : Nat) : Prog :=
+  let miss := pkgExpand sg t1 t2 t3 k1 k2 k3 n tail
   .ifStat (.adv k1)
     (.op (.read (.adv k1) true)
       (.ifStat (.adv k2)
         (.op (.mark 12) <| sigProbe sg <| pkgData t4 k2 k3 n (pkgUse k1))
         miss))
     miss
+
+/-- the builder with the regression "signature advertised last" -/
+def pkgBuilderSigLast (sg : Option (Name × Cid)) (t1 t2 t3 t4 : Name) (k1 k2 k3 : Cid) (n : Nat) : Prog :=
+  pkgBuilderVar (cacheTailSigLast (pkgData t4 k2 k3 n) sg t1 t2 t3 k1 k2 k3) sg t1 t2 t3 t4 k1 k2 k3 n
+
+/-- the builder with the regression "signature advertised after the data section" -/
+def pkgBuilderDatSig (sg : Option (Name × Cid)) (t1 t2 t3 t4 : Name) (k1 k2 k3 : Cid) (n : Nat) : Prog :=
+  pkgBuilderVar (cacheTailDatSig (pkgData t4 k2 k3 n) sg t1 t2 t3 k1 k2 k3) sg t1 t2 t3 t4 k1 k2 k3 n
 
 /-- the builder of the tree before the fix F19c: `cachedPackage` looked the signature up *before* the
 data section, i.e. in the same order in which `cachePackage` advertises them — a reader must probe in
